@@ -24,7 +24,25 @@ FAMILIES = {
             "gds21/src/data.rs: GdsFloat64::decode = the fields gds_sign / gds_exp7 / gds_mant and the float expression of Gds/GdsReal.v"),
     "raw": ("Raw/KernelsTieRaw_proofs.v", "Raw.KernelsTieRaw_proofs", "Properties/KernelsRaw.v",
             "layout21raw/src/geom.rs, bbox.rs: Rect::center, BoundBox::center, Vec<Point>::bbox = rect_center / bbox_center of Raw/RawGdsExport.v"),
+    # second part of the subset (match, `?`, Result, enums, external functions): coq/Base/KernelOpsX.v, Gen/KernelsTetrisGen.v, Gen/KernelsRaw2Gen.v
+    "tetris_stack": ("Tetris/KernelsTieTetris_proofs.v", "Tetris.KernelsTieTetris_proofs", "Properties/KernelsTetris.v",
+                     "layout21tetris/src/validate.rs, stack.rs, coords.rs: ValidMetalLayer::{track_start_width, center, span, track_index}, ValidStack::metal, "
+                     "LibValidator::{validate_track_ref, validate_track_cross}, MetalLayer::{entries, pitch, to_layer_period_data} (and the DbUnits operators they go through) "
+                     "= track_start_width / center / span fixed, track_index, metal_at, validate_track_ref / _cross (Tetris/Compile.v), entries, pitch, to_layer_period_data (Tetris/Stack.v)"),
+    "tetris_tracks": ("Tetris/KernelsTieTracks_proofs.v", "Tetris.KernelsTieTracks_proofs", "Properties/KernelsTetris.v",
+                      "layout21tetris/src/tracks.rs: Track::cut_or_block (bounds check, position, type match, overlap check, `&mut` write-back, insert loop) = cut_or_block of Tetris/Tracks.v"),
+    "tetris_place": ("Tetris/KernelsTiePlace_proofs.v", "Tetris.KernelsTiePlace_proofs", "Properties/KernelsTetris.v",
+                     "layout21tetris/src/instance.rs, placer.rs, bbox.rs, coords.rs, placement.rs: Instance::boundbox, Placer::resolve_instance_place (the whole match over "
+                     "side / align / reflection / separation), impl Add/Sub for PrimPitches, Place::abs = inst_boundbox, target_boundbox ;; resolve (Tetris/Placer.v)"),
+    "raw_lef": ("Raw/KernelsTieRawLef_proofs.v", "Raw.KernelsTieRawLef_proofs", "Properties/KernelsRaw2.v",
+                "layout21raw/src/lef.rs: LefImporter::import_dist, import_point = import_dist / import_point of Raw/RawLef.v (decimal operations external)"),
+    "raw_proto": ("Raw/KernelsTieRaw2_proofs.v", "Raw.KernelsTieRaw2_proofs", "Properties/KernelsRaw2.v",
+                  "layout21raw/src/proto.rs: ProtoExporter::export_point, export_rect, ProtoImporter::import_point, import_rect = export_point / export_rect / import_point / import_rect of Raw/RawProto.v"),
+    "raw_gds": ("Raw/KernelsTieRawGds_proofs.v", "Raw.KernelsTieRawGds_proofs", "Properties/KernelsRaw2.v",
+                "layout21raw/src/gds.rs: GdsImporter::import_boundary (closure test, pop, the two rectangle patterns, Rect / Polygon) = import_boundary of Raw/RawGds.v"),
 }
+# the file generated for each family (evidence text)
+GENERATED = {"tetris_stack": "KernelsTetrisGen.v", "tetris_tracks": "KernelsTetrisGen.v", "tetris_place": "KernelsTetrisGen.v", "raw_lef": "KernelsRaw2Gen.v", "raw_proto": "KernelsRaw2Gen.v", "raw_gds": "KernelsRaw2Gen.v"}
 TRANSLATOR = os.path.join(VERIF, "tools", "translate_rust_kernels.py")
 
 def _failing_lemma(out, coqdir):
@@ -46,7 +64,7 @@ def _failing_lemma(out, coqdir):
 
 def kernel_tie_leg(chk, family):
     tie_file, tie_mod, prop_file, what = FAMILIES[family]
-    info = {"family": family, "covers": what, "generated_file": "coq/Gen/KernelsGen.v (tools/translate_rust_kernels.py, regenerated from %s on this run)" % REPO}
+    info = {"family": family, "covers": what, "generated_file": "coq/Gen/%s (tools/translate_rust_kernels.py, regenerated from %s on this run)" % (GENERATED.get(family, "KernelsGen.v"), REPO)}
     chk.cov.setdefault("kernel_ties", {})[family] = info
     def broken(obligation, msg):
         info["status"] = "BROKEN"
@@ -62,11 +80,12 @@ def kernel_tie_leg(chk, family):
         return False
     rc, out = sh([sys.executable, TRANSLATOR], timeout=300)
     info["translator"] = out.strip()[-300:]
-    if rc != 0:
-        mine = [l for l in out.splitlines() if l.startswith("FAILED family=%s " % family)]
-        anyf = [l for l in out.splitlines() if l.startswith("FAILED family=")]
-        if mine or not anyf:
-            return broken("translator", "tools/translate_rust_kernels.py could not translate the kernels of this tree: " + (" | ".join(mine) or out.strip()[-1200:]))
+    mine = [l for l in out.splitlines() if l.startswith("FAILED family=%s " % family)]
+    anyf = [l for l in out.splitlines() if l.startswith("FAILED family=")]
+    if mine or (rc != 0 and not anyf):
+        # (the script exits 0 when only families of its later units fail: their FAILED lines are read here)
+        return broken("translator", "tools/translate_rust_kernels.py could not translate the kernels of this tree: " + (" | ".join(mine) or out.strip()[-1200:]))
+    if anyf:
         chk.notes.append("kernel translator: functions of other families no longer translate (%s); this family is unaffected" % " | ".join(anyf)[:600])
     ok, mk = coq_make([tie_file[:-2] + ".vo"])
     chk.write_log("coq_kernel_tie_build.log", mk)
